@@ -38,7 +38,7 @@ def required_cells(tier):
         req[f"{e}:cut"] = 2
         req[f"{e}:T=0"] = 1
         req[f"{e}:T>0"] = 1
-    req.update({"tebd:full": 3, "gibbs:full": 3, "pt:file-backed": 2, "state:pure": 4,
+    req.update({"tebd:full": 3, "gibbs:full": 3, "pt:file-backed": 2, "tempo:shared-correlations-history": 1, "state:pure": 4,
                 "state:rankdef": 4, "strong": 6,
                 "physical:Tempo.compute": 20, "physical:compute_dynamics": 20,
                 "physical:MeanFieldTempo.compute": 10,
@@ -121,7 +121,24 @@ def run_case(case):
         sysd = scen.random_system(rng, d, "td" if i % 4 == 1 else "const")
         rho0 = gen.rand_state(rng, d, skind)
         corr = gen.make_power_law(p)
-        if entry == "tempo":
+        if entry == "tempo" and (i // 6) % 4 == 0:
+            # history: two baths built from ONE correlations object whose
+            # coupling strength is changed in between; both are then used on
+            # the same time grid (every reported state must stay physical)
+            cells.append("tempo:shared-correlations-history")
+            strong = corr.alpha
+            corr.alpha = strong / 40.0
+            bath_weak = oqupy.Bath(oper, corr)
+            corr.alpha = strong
+            bath_strong = oqupy.Bath(oper, corr)
+            end = lib.end_time(start, dt, nsteps)
+            oqupy.Tempo(sysd["oq"], bath_weak, params, rho0, start,
+                        unique=unique).compute(
+                start + (max(2, nsteps // 2) + 0.4) * dt,
+                progress_type="silent")
+            oqupy.Tempo(sysd["oq"], bath_strong, params, rho0, start,
+                        unique=unique).compute(end, progress_type="silent")
+        elif entry == "tempo":
             lib.run_tempo(sysd["oq"], oper, corr, rho0, start, dt, nsteps,
                           params, unique)
         else:
